@@ -25,6 +25,7 @@ var _ *imapserver.FetchWriter
 //@   captures (mbox *MailboxView)
 //@   requires mbox != nil && imapserver.TrackerWF(mbox.tracker)
 //@   callsite FetchWriter.CreateMessage(fw *imapserver.FetchWriter, n uint32) requires n != 0
+//@   callsite MailboxTracker.QueueMessageFlags(t *imapserver.MailboxTracker, n uint32, uid imap.UID, flags []imap.Flag, source *imapserver.SessionTracker) requires n == seqNum
 
 // SEARCH results only contain sequence numbers the client knows.
 //
